@@ -122,8 +122,16 @@ def variants(case, real, opts, tiny=False):
     op = case["op"]
     out = []
 
+    def colmajor(c):
+        p = list(range(c.dim()))[::-1]
+        return c.permute(p).contiguous().permute(p)         # same values, reversed strides (a non-contiguous view)
+
     def shrink(T):
-        return tt.TT([T.cores[0] * 2.0 ** -SCALE_EXP] + [c.clone() for c in T.cores[1:]]) if (tiny and T is not None) else T
+        # the "tiny" variant: every operand times 2^-60 *and* stored in column-major (non-contiguous) cores, as returned by
+        # round / t / permute / mprod - neither the magnitude nor the memory layout of an operand is part of its value
+        if not tiny or T is None:
+            return T
+        return tt.TT([colmajor(T.cores[0] * 2.0 ** -SCALE_EXP)] + [colmajor(c) for c in T.cores[1:]])
 
     def mk():
         X = build(case["x"], real)
